@@ -999,6 +999,8 @@ def gen_C19(tier, rng):
         regs = py_reps(c, e)
         g = gen.rand_tree(rng, 2, ["a", "b", "d"], max_arity=2, consts=False, empties=False)
         gregs = py_reps(c, g)
+        lit_regs = {v_: py_reps(c, gen.L(v_)) for v_ in ("a", "b", "c")}
+        swaps = [{v_: lit_regs[v_][i_] for v_ in ("a", "b", "c")} for i_ in range(3)]
         for r in regs:
             c.q("obs %d" % r); c.q("enum %d" % r); c.q("repr %d" % r); c.q("pyfrom %d" % r)
             for v in rng.sample(vals, 3):
@@ -1014,6 +1016,10 @@ def gen_C19(tier, rng):
                 k = c.r("%s %d %s" % (op, x, set_tokens(rng.choice(subsets)))); c.q("obs %d" % k)
             key = rng.choice(["a", "b", "d", "z"])
             k = c.r("subst %d 1 %s %d" % (x, hexname(key), y)); c.q("obs %d" % k)
+            # several keys at once, replacements that mention other keys (swap, chain): simultaneous composition
+            k1, k2 = rng.sample(["a", "b", "c"], 2)
+            k = c.r("subst %d 2 %s %d %s %d" % (x, hexname(k1), swaps[i][k2], hexname(k2), swaps[i][k1])); c.q("obs %d" % k)
+            k = c.r("subst %d 3 %s %d %s %d %s %d" % (x, hexname("a"), swaps[i]["b"], hexname("b"), swaps[i]["c"], hexname("c"), swaps[i]["a"])); c.q("obs %d" % k)
             k = c.r("op1 not %d" % x); c.q("obs %d" % k)
             if i == 0:
                 for o in ("and", "or"):
